@@ -60,19 +60,27 @@ def parse_cfg(lines=None):
 
 def write_cfg(overrides, name=None):
     """Copy of the shipped parameter file with scalar lines overridden; returns the path."""
+    import zlib
     lines = read_cfg_lines()
     seen = set()
     out = []
+
+    def form(k, v):
+        # the file format is "keyword value" split on white space with '#' comments: the same setting
+        # is written plain, indented (blanks / tab) or with a trailing comment, by content
+        f = zlib.crc32(("%s=%s|%r" % (k, v, sorted(overrides.items()))).encode()) % 5
+        return ("%s %s", "  %s %s", "\t%s\t%s", "%s %s   # set for this scan", "    %s    %s  ")[f] % (k, v)
+
     for line in lines:
         w = line.split("#")[0].split()
         if w and w[0] in overrides and len(w) == 2:
-            out.append("%s %s" % (w[0], overrides[w[0]]))
+            out.append(form(w[0], overrides[w[0]]))
             seen.add(w[0])
         else:
             out.append(line)
     for k, v in overrides.items():
         if k not in seen:
-            out.append("%s %s" % (k, v))
+            out.append(form(k, v))
     name = name or "cfg-" + "-".join("%s%s" % (k[:6], v) for k, v in sorted(overrides.items())) + ".cfg"
     path = os.path.join(worker_tmp(), name)
     with open(path, "w") as fh:
